@@ -28,7 +28,7 @@ _lib = None
 def lib():
     global _lib
     if _lib is None:
-        path = os.path.join(os.environ["VERIF_SCRATCH_DIR"], "libdd.so")
+        path = os.path.join(os.environ["VERIF_SCRATCH_DIR"], os.environ.get("VERIF_LIBDD", "libdd.so"))
         L = C.CDLL(path)
         P = C.POINTER
         L.dtw_settings_default.restype = DTWSettings
@@ -76,6 +76,30 @@ def lib():
             f = getattr(L, name)
             f.restype = seq_t
             f.argtypes = [P(seq_t), idx_t, P(seq_t), idx_t, C.c_int]
+        L.dtw_warping_path.restype = seq_t
+        L.dtw_warping_path.argtypes = [P(seq_t), idx_t, P(seq_t), idx_t, P(idx_t), P(idx_t), P(idx_t), P(DTWSettings)]
+        L.dtw_warping_path_ndim.restype = seq_t
+        L.dtw_warping_path_ndim.argtypes = [P(seq_t), idx_t, P(seq_t), idx_t, P(idx_t), P(idx_t), P(idx_t), C.c_int,
+                                            P(DTWSettings)]
+        PP = P(P(seq_t))
+        for name in ("dtw_distances_ptrs", "dtw_distances_ptrs_parallel"):
+            f = getattr(L, name)
+            f.restype = idx_t
+            f.argtypes = [PP, idx_t, P(idx_t), P(seq_t), P(DTWBlock), P(DTWSettings)]
+        for name in ("dtw_distances_ndim_ptrs", "dtw_distances_ndim_ptrs_parallel"):
+            f = getattr(L, name)
+            f.restype = idx_t
+            f.argtypes = [PP, idx_t, P(idx_t), C.c_int, P(seq_t), P(DTWBlock), P(DTWSettings)]
+        for name in ("dtw_distances_matrix", "dtw_distances_matrix_parallel"):
+            f = getattr(L, name)
+            f.restype = idx_t
+            f.argtypes = [P(seq_t), idx_t, idx_t, P(seq_t), P(DTWBlock), P(DTWSettings)]
+        L.dtw_dba_ptrs.restype = None
+        L.dtw_dba_ptrs.argtypes = [PP, idx_t, P(idx_t), P(seq_t), idx_t, P(C.c_ubyte), C.c_int, C.c_int, P(DTWSettings)]
+        L.dtw_dba_matrix.restype = None
+        L.dtw_dba_matrix.argtypes = [P(seq_t), idx_t, idx_t, P(seq_t), idx_t, P(C.c_ubyte), C.c_int, C.c_int,
+                                     P(DTWSettings)]
+        L.dtw_block_empty.restype = DTWBlock
         _lib = L
     return _lib
 
